@@ -285,3 +285,12 @@ pub fn gen_unicode(rng: &mut Rng, max_chars: usize) -> String {
     }
     s
 }
+
+/// Text the Shift-JIS encoder cannot express at all (it reports an error rather than folding it):
+/// a library call that must encode it has to fail; if it succeeds, the text must still come back
+/// unchanged.
+pub const UNENCODABLE: [&str; 6] = ["caf\u{e9}", "\u{1F600}", "\u{d55c}\u{ae00}", "na\u{ef}ve", "x\u{1F600}y", "\u{e9}"];
+
+pub fn unencodable(s: &str) -> bool {
+    sjis_encode(s).is_none()
+}
